@@ -25,6 +25,7 @@
 #include <algorithm>
 #include <sstream>
 #include <unistd.h>
+#include <csignal>
 #include <sched.h>
 #include <dirent.h>
 #include <time.h>
@@ -248,6 +249,7 @@ void watchdog_stop();
 void suspend_gate();                   // background helpers (keeper) block here, without timeouts, while the watchdog is deciding
 
 // ------------------------------------------------------------------------------------------------ misc
+void set_crash_context(const std::string& what);   // printed on a fatal signal so that the driver can key the crash by scenario kind
 void pin_process_to_cpus(int ncpus);   // restrict the whole process (call before threads are created)
 int gettid_();
 std::string hex64(uint64_t v);
@@ -422,7 +424,16 @@ void Result::write() {
     fwrite(j.s.data(), 1, j.s.size(), f); fputc('\n', f); fclose(f);
     rename(tmp.c_str(), out_path.c_str());
 }
-void Result::finish_and_exit(int code) { write(); fflush(stderr); _exit(code); }
+#if VRT_ASAN
+extern "C" int __lsan_do_recoverable_leak_check();
+#endif
+void Result::finish_and_exit(int code) {
+    write(); fflush(stderr);
+#if VRT_ASAN
+    if (code == 0) __lsan_do_recoverable_leak_check();   // _exit skips the at-exit leak check
+#endif
+    _exit(code);
+}
 
 // ---------------------------------------------------------------------------------------------- watchdog
 static std::atomic<uint64_t> g_progress{0};
@@ -534,8 +545,23 @@ void pin_process_to_cpus(int ncpus) {
     sched_setaffinity(0, sizeof set, &set);
 }
 
+static char g_crash_ctx[2][200]; static std::atomic<int> g_crash_idx{0};
+void set_crash_context(const std::string& what) {
+    int i = 1 - g_crash_idx.load(std::memory_order_relaxed);
+    size_t n = std::min(what.size(), sizeof(g_crash_ctx[0]) - 1); memcpy(g_crash_ctx[i], what.data(), n); g_crash_ctx[i][n] = 0;
+    g_crash_idx.store(i, std::memory_order_release);
+}
+static void crash_handler(int sig) {
+    const char* c = g_crash_ctx[g_crash_idx.load(std::memory_order_acquire)];
+    if (c[0]) { const char* p = "\n[vrt-crash-context] "; if (write(2, p, strlen(p)) < 0) {} if (write(2, c, strlen(c)) < 0) {} if (write(2, "\n", 1) < 0) {} }
+    signal(sig, SIG_DFL); raise(sig);
+}
 Args standard_init(int argc, char** argv, const char* harness_name) {
     Args a; a.parse(argc, argv);
+    signal(SIGABRT, crash_handler);
+#if !VRT_ASAN && !VRT_TSAN
+    signal(SIGSEGV, crash_handler); signal(SIGBUS, crash_handler);
+#endif
     Result& r = result();
     r.harness = harness_name;
     r.seed = (uint64_t)a.num("seed", 1);
